@@ -542,8 +542,17 @@ def C09_builder_slots(ctx, rid, core, G):
         for kchild in sorted(kids):
             ctx.inst(rid, "%s#child=%s" % (rule, kchild), kchild in handled, "grammar child %s of %s has a builder arm: %s" % (kchild, rule, kchild in handled), H.loc(a["body"]))
         # comments are kept: pushes to pending_comments under preserve_comments
-        pushes = [n for n in H.walk(a["body"]) if H.kind(n) == "MethodCall" and n["name"] == "push" and H.path_local(n["recv"]) == "pending_comments"]
-        ctx.inst(rid, "%s#keeps-comments" % rule, len(pushes) >= 1, "comment children are pushed to pending_comments: %d site(s)" % len(pushes), H.loc(a["body"]))
+        # comments are kept: inside the handling of a `comment` child its text is pushed onto a list of pending comments
+        pushes = []
+        for n in H.walk(a["body"]):
+            regions = []
+            if H.kind(n) == "Match" and n["scrut"].get("ty", "").endswith("parser::Rule"):
+                regions += [aa["body"] for aa in n["arms"] if any(H.last(v) == "comment" for v in H.pat_variants(aa["pat"]))]
+            if H.kind(n) == "If" and any((H.path_def(x) or "").endswith("parser::Rule::comment") for x in H.walk(n["cond"])):
+                regions.append(n["then"])
+            for r_ in regions:
+                pushes += [x for x in H.walk(r_) if H.kind(x) == "MethodCall" and x["name"] == "push" and "alloc::string::String" in H.strip(x["args"][0]).get("ty", "alloc::string::String")]
+        ctx.inst(rid, "%s#keeps-comments" % rule, len(pushes) >= 1, "where a comment child is handled its text is pushed onto a pending list: %d site(s)" % len(pushes), H.loc(a["body"]))
         # items: second slot (eol comment) consumed
         for item_rule in {"list": ["list_item"], "record": ["record_item"], "do_block": ["do_statement"]}[rule]:
             n_slots = len(G.seq(G.expr(item_rule)))
